@@ -73,6 +73,17 @@ var c20Scenarios = []string{
 
 func genC20(g *Rng, tier string, emit func(Op)) {
 	thorough := tier == "thorough"
+	// the safe-prime workers stopped either way (close / send), the consumer still reading: what a
+	// concurrent search delivers is as valid as what a sequential one returns (never nil), and no
+	// worker is left (executor shared with C16)
+	nsp := 4
+	if thorough {
+		nsp = 24
+	}
+	for i := 0; i < nsp; i++ {
+		emit(Op{"op": "safeprime-stop", "class": "safeprime-stop-drain", "key": "safeprime-stop", "label": "clean", "mode": "immediate", "send": i%2 == 0, "drain": true,
+			"bits": 20 + g.intn(24), "recvs": 1 + g.intn(3), "workers": runtime.GOMAXPROCS(0), "wait": 4000})
+	}
 	gor := []int{2, 8, 64}
 	procs := []int{4, 16, 1}
 
